@@ -7,7 +7,7 @@ from model import (ret_value_class, dstr, strip, fact_holds, mentions_field, men
 from rules import (guarded, calls_to, field_writes, who_may_write, who_may_call, full_range,
                    loops_over, every_iteration_passes, basename, origins, is_var, is_enum,
                    lastname, dominated_by, reject_if, must_pass, reached_only_via, deep_resolve,
-                   header_iff_empty, linear, block_env)
+                   header_iff_empty, linear, block_env, justified)
 
 ENTRY_FIELDS = ['BuildLog::LogEntry::start_time', 'BuildLog::LogEntry::end_time',
                 'BuildLog::LogEntry::mtime', 'BuildLog::LogEntry::command_hash']
@@ -351,6 +351,25 @@ def run(ctx):
                 if len(inits) == 1 and mentions_var(inits[0]['init'], 'output_count') and clears and \
                         all(const_value(x.get('r')) == 0 and fact_holds(rs.facts_at(x), full_eq, True) for x in clears):
                     okA = True
+            # (C) the guard in force at the write implies it, looking through composites, flags and helper predicates
+            def base(g, a, pol):
+                a = strip(a)
+                if not isinstance(a, dict):
+                    return False
+                if no_outputs_named(None, pol, a):
+                    return True
+                if pol and a.get('k') == 'call' and lastname(a.get('name')).startswith('operator=='):
+                    sides = ([a['recv']] if a.get('recv') is not None else []) + list(a.get('args') or [])
+                    if len(sides) == 2:
+                        for x, y in (sides, sides[::-1]):
+                            ox = [strip(o) for o in origins(g, deep_resolve(g, x))]
+                            oy = [strip(o) for o in origins(g, y)]
+                            if ox and all(mentions_field(o, 'BuildLog::LogEntry::output') for o in ox) and oy and \
+                                    all(mentions_var(o, 'outputs') for o in oy):
+                                return True
+                return False
+            if not okA:
+                okA = any(justified(prog, rs, fa, fp, base) for fp, fa in rs.facts_at(e).values())
             okB = False
             if not okA:
                 heads = [l for l in loops_over(rs, 'BuildLog::entries_')
